@@ -69,3 +69,21 @@ Definition step_sem (ct : ctable) (sp : spath) (ch : list pos) : Prop :=
 (* node x of the tree under root matches *)
 Definition step_sem_node (ct : ctable) (sp : spath) (root x : node) : Prop :=
   exists l, path root l x /\ step_sem ct sp (chain root l).
+
+(* ---- examples of the reading ---- *)
+(* "//P/@items[2]L" (absolute text): P anywhere, then directly below it an L stored at items[2] *)
+Example view_ex1 :
+  view {| xp_relative := false; xp_steps := [empty_step; st "" IAbsent "P"; st "items" (IVal 2) "L"] |}
+  = {| sp_absolute := true;
+       sp_steps := [ {| ss_dslash := true; ss_class := Some (lit "P"); ss_field := None; ss_index := None |};
+                     {| ss_dslash := false; ss_class := Some (lit "L"); ss_field := Some (lit "items"); ss_index := Some 2 |} ] |}.
+Proof. reflexivity. Qed.
+(* "@child P///[]/L" (relative text): three slashes are one "//"; "/[]" is a step without class, field or index *)
+Example view_ex2 :
+  view {| xp_relative := true;
+          xp_steps := [st "child" IAbsent "P"; empty_step; empty_step; st "" IEmpty ""; st "" IAbsent "L"] |}
+  = {| sp_absolute := false;
+       sp_steps := [ {| ss_dslash := false; ss_class := Some (lit "P"); ss_field := Some (lit "child"); ss_index := None |};
+                     {| ss_dslash := true; ss_class := None; ss_field := None; ss_index := None |};
+                     {| ss_dslash := false; ss_class := Some (lit "L"); ss_field := None; ss_index := None |} ] |}.
+Proof. reflexivity. Qed.
